@@ -1575,9 +1575,14 @@ def _inline_in_function(func, owner, classes, modfuncs, known, qual=None):
             # early returns: bring the body into single-exit form
             if kind != "assign":
                 return None
+            body0 = body
+            if not _ends(body):
+                # falling off the end returns None (canon_flow drops a
+                # trailing bare `return None`)
+                body = body + [ast.Return(value=ast.Constant(value=None))]
             conv = _single_exit(body, st.targets[0])
             if conv is None:
-                conv = _loop_exit(body, st.targets[0])
+                conv = _loop_exit(body0, st.targets[0])
             if conv is None:
                 return None
             for b_ in conv:
@@ -1920,6 +1925,24 @@ def inline_temporaries(func, known_locals):
                                 isinstance(x.ctx, (ast.Store, ast.Del)) and \
                                 ast.unparse(x) in prefixes:
                             clash = True
+                    # ... nor may the object be handed to code that can
+                    # change it (a method called on it, or it being passed
+                    # as an argument), except through `self` whose methods
+                    # the other rules look at one by one
+                    root = chain.id
+                    for x in ast.walk(func):
+                        if isinstance(x, ast.Call):
+                            r_ = x.func
+                            while isinstance(r_, (ast.Attribute,
+                                                  ast.Subscript)):
+                                r_ = r_.value
+                            if isinstance(x.func, ast.Attribute) and \
+                                    isinstance(r_, ast.Name) and \
+                                    r_.id == root:
+                                clash = True
+                            if any(isinstance(a_, ast.Name) and a_.id == root
+                                   for a_ in x.args):
+                                clash = True
                     if not clash:
                         fragile = False
             if fragile:
@@ -1955,6 +1978,16 @@ def inline_temporaries(func, known_locals):
                 # store
                 v_attrs = {y.attr for y in ast.walk(v)
                            if isinstance(y, ast.Attribute)}
+                # ... and by a method call on the object it is read from
+                # (`start = packet.size; packet.append(...); use(start)`)
+                v_roots = set()
+                for y in ast.walk(v):
+                    if isinstance(y, ast.Attribute):
+                        r_ = y
+                        while isinstance(r_, ast.Attribute):
+                            r_ = r_.value
+                        if isinstance(r_, ast.Name):
+                            v_roots.add(r_.id)
                 v_items = any(isinstance(y, (ast.Subscript, ast.Starred))
                               for y in ast.walk(v))
                 for c in crossing:
@@ -1970,6 +2003,16 @@ def inline_temporaries(func, known_locals):
                                 y.ctx, (ast.Store, ast.Del)) and (
                                     v_items or has_call):
                             moved = True
+                        if isinstance(y, ast.Call) and isinstance(
+                                y.func, ast.Attribute):
+                            r_ = y.func.value
+                            while isinstance(r_, (ast.Attribute,
+                                                  ast.Subscript, ast.Call)):
+                                r_ = r_.value if not isinstance(
+                                    r_, ast.Call) else r_.func
+                            if isinstance(r_, ast.Name) and \
+                                    r_.id in v_roots:
+                                moved = True
                         # a value that calls something must not be moved
                         # over another call; plain reads may
                         if has_call and isinstance(y, ast.Call):
